@@ -73,7 +73,8 @@ def run(pid=None, jobs=None):
         v = variants[idx]
         kinds = {k for k, _ in res.values()}
         if v.expect == 'violation':
-            if 'violation' in kinds:
+            met = ('violation' in kinds) if v.mode == 'any' else all(k == 'violation' for k, _ in res.values())
+            if met:
                 detected += 1
                 named = any(v.file[:-3] in w for _, items in res.values() for (_, w, _) in items if isinstance(items, list)
                             and items and len(items[0]) == 3)
